@@ -23,15 +23,19 @@ func (c *Client) Move(numSet imap.NumSet, mailbox string) *MoveCommand {
 	enc.end()
 
 	if cmdName == "COPY" {
-		cmd.store = c.Store(numSet, &imap.StoreFlags{
-			Op:     imap.StoreFlagsAdd,
-			Silent: true,
-			Flags:  []imap.Flag{imap.FlagDeleted},
-		}, nil)
-		if uidSet, ok := numSet.(imap.UIDSet); ok && c.Caps().Has(imap.CapUIDPlus) {
-			cmd.expunge = c.UIDExpunge(uidSet)
-		} else {
-			cmd.expunge = c.Expunge()
+		// The messages must only be removed once the copy has succeeded: the
+		// STORE and EXPUNGE commands are sent by Wait
+		cmd.fallback = func() {
+			cmd.store = c.Store(numSet, &imap.StoreFlags{
+				Op:     imap.StoreFlagsAdd,
+				Silent: true,
+				Flags:  []imap.Flag{imap.FlagDeleted},
+			}, nil)
+			if uidSet, ok := numSet.(imap.UIDSet); ok && c.Caps().Has(imap.CapUIDPlus) {
+				cmd.expunge = c.UIDExpunge(uidSet)
+			} else {
+				cmd.expunge = c.Expunge()
+			}
 		}
 	}
 
@@ -44,13 +48,18 @@ type MoveCommand struct {
 	data MoveData
 
 	// Fallback
-	store   *FetchCommand
-	expunge *ExpungeCommand
+	fallback func()
+	store    *FetchCommand
+	expunge  *ExpungeCommand
 }
 
 func (cmd *MoveCommand) Wait() (*MoveData, error) {
 	if err := cmd.cmd.Wait(); err != nil {
 		return nil, err
+	}
+	if cmd.fallback != nil {
+		cmd.fallback()
+		cmd.fallback = nil
 	}
 	if cmd.store != nil {
 		if err := cmd.store.Close(); err != nil {
